@@ -50,6 +50,19 @@ func main() {
 		noiseChild(os.Args[2])
 		return
 	}
+	if len(os.Args) > 1 && os.Args[1] == "agedchild" {
+		agedChild()
+		return
+	}
+	if len(os.Args) > 2 && os.Args[1] == "heavychild" {
+		var ts []int
+		for _, x := range os.Args[2:] {
+			v, _ := strconv.Atoi(x)
+			ts = append(ts, v)
+		}
+		heavyChild(ts)
+		return
+	}
 	if len(os.Args) > 1 && os.Args[1] == "reusechild" {
 		reuseChild()
 		return
@@ -85,6 +98,10 @@ func main() {
 			cases = append(cases, runNoise(res)...)
 		case "reuse":
 			runReuse(res)
+		case "aged":
+			cases = append(cases, runAged(res)...)
+		case "heavy":
+			runHeavy(res, []int{int(c.D)})
 		case "farexpiry":
 			if c := runFarExpiry(res); c != nil {
 				cases = append(cases, *c)
@@ -215,7 +232,12 @@ func main() {
 		noiseDone := make(chan struct{})
 		go func() {
 			var bmu sync.Mutex
-			sideBySide(w, a, noiseRes, &bmu, runNoise, single(runReuse))
+			heavy := []int{1 << 20, 4 << 20}
+			if a.Tier == "thorough" {
+				heavy = append(heavy, 16<<20)
+			}
+			sideBySide(w, a, noiseRes, &bmu, runNoise, single(runReuse), runAged,
+				func(r *lib.Result) []Case { return runHeavy(r, heavy) })
 			close(noiseDone)
 		}()
 		runHistories(a, rng.Fork(), w)
